@@ -23,12 +23,14 @@ VARIABLES pc,       \* [Tasks -> unborn | gate | waiting | done | failed | cance
           stack,    \* [Tasks -> Seq([sid, async])] scopes the task has open, innermost last
           tg,       \* [Tasks -> 0..MaxScopes] innermost async scope visible to the task (inherited or own)
           grp,      \* [Tasks -> 0..MaxScopes] group the task was spawned into (0 = detached)
+          origin,   \* [Tasks -> 0..MaxScopes] ghost: the group that was current where the task was spawned
           owner,    \* [Sids -> 0..NTasks]
           residue,  \* [Tasks -> BOOLEAN] an internal TaskGroup cancel was absorbed while waiting (stdlib leaves cancelling() > 0)
           extc,     \* [Tasks -> BOOLEAN] ghost: the task was asked to cancel (asyncio or ctx.cancel)
+          will,     \* [Tasks -> BOOLEAN] the task will ctx.spawn one more task from its CancelledError handler
           nsid, nops, obs
 
-vars == <<pc, stack, tg, grp, owner, residue, extc, nsid, nops, obs>>
+vars == <<pc, stack, tg, grp, origin, owner, residue, extc, will, nsid, nops, obs>>
 
 Live(p) == {t \in Tasks : p[t] \in {"gate", "waiting"}}
 AsyncOf(t) == {stack[t][i].sid : i \in {j \in DOMAIN stack[t] : stack[t][j].async}}
@@ -36,8 +38,9 @@ Members(p, s) == {u \in Live(p) : grp[u] = s}
 
 Init == /\ pc = [t \in Tasks |-> IF t = 1 THEN "gate" ELSE "unborn"]
         /\ stack = [t \in Tasks |-> <<>>] /\ tg = [t \in Tasks |-> 0] /\ grp = [t \in Tasks |-> 0]
+        /\ origin = [t \in Tasks |-> 0]
         /\ owner = [s \in Sids |-> 0]
-        /\ residue = [t \in Tasks |-> FALSE] /\ extc = [t \in Tasks |-> FALSE]
+        /\ residue = [t \in Tasks |-> FALSE] /\ extc = [t \in Tasks |-> FALSE] /\ will = [t \in Tasks |-> FALSE]
         /\ nsid = 0 /\ nops = 0
         /\ obs = [pc |-> [t \in Tasks |-> IF t = 1 THEN "gate" ELSE "unborn"], check |-> "none"]
 
@@ -61,39 +64,75 @@ FailureVictims(p, u) ==
     ELSE Doomed(p, {o})
 
 (* after deaths: waiting tasks whose group has no live member left resume after the block *)
-RECURSIVE Settle(_, _, _)
-Settle(p, st, g) ==
-  LET ready == {t \in Tasks : p[t] = "waiting" /\ {u \in Live(p) : grp[u] = st[t][Len(st[t])].sid} = {}} IN
+RECURSIVE SettleG(_, _, _, _)
+SettleG(p, st, g, gr) ==
+  LET ready == {t \in Tasks : p[t] = "waiting" /\ {u \in Live(p) : gr[u] = st[t][Len(st[t])].sid} = {}} IN
   IF ready = {} THEN [pc |-> p, stack |-> st, tg |-> g]
   ELSE LET t == CHOOSE w \in ready : TRUE
            top == st[t][Len(st[t])]
            st2 == [st EXCEPT ![t] = SubSeq(@, 1, Len(@) - 1)]
            g2 == [g EXCEPT ![t] = top.stg]
-       IN Settle([p EXCEPT ![t] = "gate"], st2, g2)
+       IN SettleG([p EXCEPT ![t] = "gate"], st2, g2, gr)
+Settle(p, st, g) == SettleG(p, st, g, grp)
 
 Apply(p, st, g, chk) ==
   LET r == Settle(p, st, g) IN
   /\ pc' = r.pc /\ stack' = r.stack /\ tg' = r.tg
   /\ obs' = [pc |-> r.pc, check |-> chk]
 
+(* A task that dies cancelled at its gate may, in its CancelledError handler, spawn one more task through the context
+   (at most one task has such a will, and it has no async scope of its own, so the target is the group g it
+   inherited).  Outside any group the heir is detached; a group that is being aborted - its owner is dying, or a member
+   just failed - refuses it; otherwise (the task was cancelled on its own) the heir joins the group. *)
+Unborn == {u \in Tasks : pc[u] = "unborn"}
+Heir == CHOOSE u \in Unborn : \A w \in Unborn : u <= w
+Testators(dead) == {t \in dead : will[t] /\ pc[t] = "gate"}
+Inherit(p, dead, aborting) ==
+  IF Testators(dead) = {} \/ Unborn = {} THEN [pc |-> p, grp |-> grp, tg |-> tg, origin |-> origin]
+  ELSE LET t == CHOOSE x \in Testators(dead) : TRUE
+           g == tg[t]
+           refused == g # 0 /\ g \in aborting /\ Bug # "will_detached"
+           target == IF g \in aborting THEN 0 ELSE g IN
+       IF refused THEN [pc |-> p, grp |-> grp, tg |-> tg, origin |-> origin]
+       ELSE [pc |-> [p EXCEPT ![Heir] = "gate"], grp |-> [grp EXCEPT ![Heir] = target], tg |-> [tg EXCEPT ![Heir] = target],
+             origin |-> [origin EXCEPT ![Heir] = g]]
+ScopesOf(set) == UNION {AsyncOf(t) : t \in set}
+
 Kill(p, set, how) == [t \in Tasks |-> IF t \in set THEN how[t] ELSE p[t]]
+
+ApplyDeaths(p, dead, aborting, chk) ==
+  LET h == Inherit(p, dead, aborting)
+      r == SettleG(h.pc, stack, h.tg, h.grp) IN
+  /\ pc' = r.pc /\ stack' = r.stack /\ tg' = r.tg /\ grp' = h.grp /\ origin' = h.origin
+  /\ will' = [t \in Tasks |-> will[t] /\ t \notin dead]
+  /\ obs' = [pc |-> r.pc, check |-> chk]
 
 -----------------------------------------------------------------------------
 (* open an async scope (own task group) or a sync scope *)
 Open(t, isAsync) ==
   /\ Op(t) /\ Len(stack[t]) < MaxDepth /\ nsid < MaxScopes
+  /\ (isAsync => ~will[t])
   /\ nsid' = nsid + 1
   /\ owner' = [owner EXCEPT ![nsid + 1] = t]
   /\ Apply(pc, [stack EXCEPT ![t] = Append(@, [sid |-> nsid + 1, async |-> isAsync, stg |-> tg[t]])],
            [tg EXCEPT ![t] = IF isAsync THEN nsid + 1 ELSE @], "none")
-  /\ UNCHANGED <<grp, residue, extc>>
+  /\ UNCHANGED <<grp, origin, residue, extc, will>>
+
+(* the task announces: "if I get cancelled, my handler spawns one more task" *)
+SetWill(t) ==
+  /\ Op(t) /\ AsyncOf(t) = {} /\ \A u \in Tasks : ~will[u]
+  /\ Unborn # {}
+  /\ will' = [will EXCEPT ![t] = TRUE]
+  /\ Apply(pc, stack, tg, "none")
+  /\ UNCHANGED <<grp, origin, owner, residue, extc, nsid>>
 
 (* ctx.spawn: into the innermost async scope visible to t; detached when there is none *)
 Spawn(t, u) ==
   /\ Op(t) /\ pc[u] = "unborn" /\ \A w \in Tasks : w < u => pc[w] # "unborn"
   /\ grp' = [grp EXCEPT ![u] = IF Bug = "spawn_detached" THEN 0 ELSE tg[t]]
+  /\ origin' = [origin EXCEPT ![u] = tg[t]]
   /\ Apply([pc EXCEPT ![u] = "gate"], stack, [tg EXCEPT ![u] = tg[t]], "none")
-  /\ UNCHANGED <<owner, residue, extc, nsid>>
+  /\ UNCHANGED <<owner, residue, extc, will, nsid>>
 
 (* leave the innermost scope normally; an async scope waits for its members *)
 Leave(t) ==
@@ -103,13 +142,14 @@ Leave(t) ==
        THEN Apply([pc EXCEPT ![t] = "waiting"], stack, tg, "none")
        ELSE LET st2 == [stack EXCEPT ![t] = SubSeq(@, 1, Len(@) - 1)] IN
             Apply(pc, st2, [tg EXCEPT ![t] = top.stg], "none")
-  /\ UNCHANGED <<grp, owner, residue, extc, nsid>>
+  /\ UNCHANGED <<grp, origin, owner, residue, extc, will, nsid>>
 
 (* the task's coroutine returns (no scope open) *)
 End(t) ==
   /\ Op(t) /\ stack[t] = <<>> /\ t # 1
   /\ Apply([pc EXCEPT ![t] = "done"], stack, tg, "none")
-  /\ UNCHANGED <<grp, owner, residue, extc, nsid>>
+  /\ will' = [will EXCEPT ![t] = FALSE]
+  /\ UNCHANGED <<grp, origin, owner, residue, extc, nsid>>
 
 (* the task raises an Exception at its gate: every scope it has open is left with that error -
    members die - the task fails, and the group it belongs to reacts *)
@@ -120,9 +160,11 @@ Fail(t) ==
          vict == FailureVictims(p1, t)
          o == IF grp[t] = 0 THEN 0 ELSE owner[grp[t]]
          p2 == Kill(p1, vict, [x \in Tasks |-> "cancelled"])
+         alldead == dead \cup vict
+         aborting == ScopesOf(alldead) \cup (IF grp[t] = 0 THEN {} ELSE {grp[t]})
      IN /\ residue' = [residue EXCEPT ![o] = IF o # 0 /\ o \in Live(p2) /\ p1[o] = "waiting" THEN TRUE ELSE @]
-        /\ Apply(p2, stack, tg, "none")
-  /\ UNCHANGED <<grp, owner, extc, nsid>>
+        /\ ApplyDeaths(p2, alldead \ {t}, aborting, "none")
+  /\ UNCHANGED <<owner, extc, nsid>>
 
 (* task.cancel() from outside on a task at its gate or waiting for members: it dies cancelled
    together with everything spawned into the scopes it has open *)
@@ -131,18 +173,20 @@ Cancel(t) ==
   /\ extc' = [extc EXCEPT ![t] = TRUE]
   /\ IF Bug = "swallow_wait_cancel" /\ pc[t] = "waiting"
        THEN LET dead == Doomed(pc, {t}) \ {t} IN
-            Apply(Kill(pc, dead, [x \in Tasks |-> "cancelled"]), stack, tg, "none")
-       ELSE Apply(Kill(pc, Doomed(pc, {t}), [x \in Tasks |-> "cancelled"]), stack, tg, "none")
-  /\ UNCHANGED <<grp, owner, residue, nsid>>
+            ApplyDeaths(Kill(pc, dead, [x \in Tasks |-> "cancelled"]), dead, ScopesOf(dead \cup {t}), "none")
+       ELSE LET dead == Doomed(pc, {t}) IN
+            ApplyDeaths(Kill(pc, dead, [x \in Tasks |-> "cancelled"]), dead, ScopesOf(dead), "none")
+  /\ UNCHANGED <<owner, residue, nsid>>
 
 (* the task calls ctx.cancel() and then ctx.check_cancellation() before its next suspension:
    the check raises; the cancellation is delivered at the next suspension point *)
 CtxCancel(t) ==
   /\ Op(t)
   /\ extc' = [extc EXCEPT ![t] = TRUE]
-  /\ Apply(Kill(pc, Doomed(pc, {t}), [x \in Tasks |-> "cancelled"]), stack, tg,
-           IF Bug = "check_never" THEN "passed" ELSE "raised")
-  /\ UNCHANGED <<grp, owner, residue, nsid>>
+  /\ LET dead == Doomed(pc, {t}) IN
+     ApplyDeaths(Kill(pc, dead, [x \in Tasks |-> "cancelled"]), dead, ScopesOf(dead),
+                 IF Bug = "check_never" THEN "passed" ELSE "raised")
+  /\ UNCHANGED <<owner, residue, nsid>>
 
 (* ctx.check_cancellation() by a task nobody asked to cancel: does not raise.  After an absorbed
    internal TaskGroup cancel CPython 3.12 leaves cancelling() > 0: either answer is accepted then. *)
@@ -151,12 +195,12 @@ Check(t) ==
   /\ \E answer \in {"passed", "raised"} :
         /\ (answer = "raised" => residue[t])
         /\ Apply(pc, stack, tg, answer)
-  /\ UNCHANGED <<grp, owner, residue, extc, nsid>>
+  /\ UNCHANGED <<grp, origin, owner, residue, extc, will, nsid>>
 
 Next == \E t \in Tasks :
           \/ \E a \in BOOLEAN : Open(t, a)
           \/ \E u \in Tasks : Spawn(t, u)
-          \/ Leave(t) \/ End(t) \/ Fail(t) \/ Cancel(t) \/ CtxCancel(t)
+          \/ Leave(t) \/ End(t) \/ Fail(t) \/ Cancel(t) \/ CtxCancel(t) \/ SetWill(t)
           \/ Check(t)
 Spec == Init /\ [][Next]_vars
 
@@ -187,4 +231,9 @@ CancelCascades ==
 CheckAgrees == [][\A t \in Tasks :
                      /\ (obs'.check = "raised" /\ nops' = nops + 1) => (\E u \in Tasks : (extc'[u] /\ ~extc[u]) \/ residue[u])
                      /\ ((extc'[t] /\ ~extc[t] /\ pc[t] = "gate" /\ obs'.check # "none") => obs'.check = "raised")]_vars
+(* C06: ... including tasks spawned by members while the scope is being torn down: a task never outlives the
+   scope that was current where it was spawned *)
+NoEscape == \A u \in Live(pc) : origin[u] # 0 =>
+               /\ owner[origin[u]] \in Live(pc)
+               /\ origin[u] \in AsyncOf(owner[origin[u]])
 =============================================================================
